@@ -35,14 +35,20 @@ from . import c17_facts
 
 PROP = "C17"
 LEVEL = "proof"
-LEVEL_TEXT = ("Partial proof. Lean 4: noninterference of a three-source imperative semantics (seeded generator / "
-              "process-global generator / string-hash order) for every program whose reachable bodies read only the "
-              "seeded source; soundness of the table decision procedure; and the closed obligation, re-checked on "
-              "every run over the call graph extracted from /repo's AST, that no public callable with a `seed` "
-              "parameter of the enumerated families reaches the global generator, drops its seed, or consumes a "
-              "hash-ordered set in an order-sensitive way. That the extracted table covers the real bodies is not "
-              "proved: it is validated dynamically, API by API, in fresh interpreters under different "
-              "PYTHONHASHSEED and global-generator states.")
+LEVEL_TEXT = ("Partial proof. Lean 4: noninterference of a four-source imperative semantics (seeded generator / "
+              "process-global generator / string-hash order / completion order of the workers of an executor "
+              "pool) for every program whose reachable bodies read only the seeded source, and that such a program "
+              "leaves the global generator untouched; soundness of the table decision procedure; a data-flow "
+              "analysis of the variables that carry the seed / a generator, proved sound, re-run by the kernel on "
+              "the skeletons extracted from /repo's AST on every run (no sink -- get_rng(x), f(seed=x), x.randint() "
+              "-- receives None or the global module on any path); determinism of the forest's submission-order "
+              "gather for every completion order of the pool; and the closed obligation over the regenerated call "
+              "graph that no public callable with a `seed` parameter of the enumerated families reaches the global "
+              "generator, drops its seed, consumes a hash-ordered set or pool results in completion order. That the "
+              "extracted tables cover the real bodies is not proved: it is validated dynamically, API by API, in "
+              "fresh interpreters under different PYTHONHASHSEED, global-generator states and pool completion "
+              "orders, including the state of the global generators before / after every call and the forest's "
+              "rounds as seen by the pool.")
 LEVEL_NOTE = ("Trusted: Lean kernel; the AST fact extractor harness/c17_facts.py (name-based call resolution with "
               "receiver typing, calls through parameters / external libraries opaque, a reviewed list of int-only "
               "set iterations); CPython's random.Random(seed) and numpy's default_rng(seed) being functions of the "
@@ -68,6 +74,8 @@ THEOREMS = [
     "Cotengra.C17.shared_state_counterexample",
     # round 3: worker completion order as a fourth source; data flow of the generator variables;
     # gathering from an executor pool; get_rng
+    "Cotengra.Flow.clean_leaves_global_untouched",
+    "Cotengra.C17.seeded_apis_leave_global_untouched",
     "Cotengra.C17.sched_read_interferes",
     "Cotengra.C17.sched_row_rejected",
     "Cotengra.RFlow.analyse_sound",
@@ -91,16 +99,28 @@ TRUSTED = [
     "REVIEWED_INT_SETS lists the set iterations reviewed as integer-only",
     "CPython random.Random(seed) / numpy default_rng(seed) / networkx / native kahypar are functions of their seed",
     "the canonicalisation of results in harness/c17_worker.py (trees -> node sets + ssa path + sliced indices)",
+    "harness/c17_rngflow.py: the syntactic extraction of the skeletons (which names carry a seed / generator, which "
+    "expressions are sinks, how Python statements map to skeleton statements); the data-flow analysis on them is "
+    "Lean's (`RFlow.analyse`, proved sound), its Python mirror is compared with it on every skeleton",
+    "CPython's concurrent.futures (Future / as_completed / wait) as used by the harness's OrderedPool",
 ]
 ASSUMPTIONS = [
     "scope of the static obligation: the families C17 enumerates (utils generators, random-greedy, RandomOptimizer, "
     "labels/kahypar partition builders, slice/SliceFinder/unslice_rand, get_subtree, subtree_reconfigure(_forest), "
     "simulated_anneal / parallel_temper); compressed-contraction optimizers, hyper-optimizer samplers and the "
     "flowcutter/quickbb/igraph wrappers are analysed and reported as notes only",
-    "parallel=False for the forest / tempering / random-greedy (process pools are out of scope)",
+    "parallel= is False or an executor OBJECT (the harness passes one that computes every task at submit and "
+    "completes the futures first-in-first-out, last-in-first-out or shuffled); real process / thread pools, dask "
+    "and ray (scatter pools) are not exercised: what they add beyond a completion order -- pickling, worker-side "
+    "global state -- is out of scope",
     "optimizer objects passed as arguments (`optimize=`) are part of the arguments",
 ]
-RULE = ("[every case also: the identical call repeated on the SAME object after a warm-up history, on copies, "
+RULE = ("[round 3: options that gate randomness take their boundary values (random_strength 0 / 0.0 / 1e-9 / default, "
+        "temperature 0 / degenerate ranges, groupsize / parts / cutoff, partitioner options); forest / tempering / "
+        "random-greedy also with an executor pool as parallel= on lattices with a single bond size (score ties), the "
+        "pool completing first-in-first-out / last-in-first-out / shuffled per interpreter; optimizer objects passed "
+        "as optimize=; the global generators' state is compared before / after every call] "
+        "[every case also: the identical call repeated on the SAME object after a warm-up history, on copies, "
         "after a call with another seed and through the inplace variant, inside one interpreter] "
         "per round a random network (6-30 tensors; single-letter, multi-character and unicode index labels so that "
         "string hashing matters) x random tree x every seeded API with randomised options; each case = (API, "
@@ -434,6 +454,9 @@ def gen_cases(rng, rounds, big=False):
                             {"subtree_search": ["bfs", "dfs"], "subtree_select": ["max", "min"]},
                             {"minimize": rng.choice(["flops", "size", "combo", "write"])}]))
             cases[-1]["lattice"] = info
+            # random-greedy batches on the same lattice: many different paths of exactly equal flops
+            plainC("RandomGreedyOptimizer", max_repeats=rng.randint(4, 8), mode=rng.choice(["call", "search"]),
+                   parallel="pool", workers=rng.randint(2, 4), temperature=rng.choice([0.5, [0.3, 1.0], [1e-9, 1e-9]]))
         C("parallel_temper", tsteps=2, numiter=2, num_trees=rng.randint(2, 4), parallel="pool",
           workers=rng.randint(1, 3))
         plainC("slice_and_reconfigure_forest_globalseed", target_size=rng.choice([8, 16, 64]),
@@ -534,7 +557,7 @@ def _minimal_replay(case, runs):
 def _check_single(case, runs):
     """run one case alone; True = all results identical"""
     outs = run_workers([case], runs)
-    return len({_key(o["results"]["0"]) for o in outs}) == 1
+    return len({_key(_val(o["results"]["0"])) for o in outs}) == 1
 
 
 def compare(ctx, cases, outs, runs, sens=None):
@@ -542,7 +565,14 @@ def compare(ctx, cases, outs, runs, sens=None):
     failing = {}
     for pos, case in enumerate(cases):
         rs = [o["results"][str(pos)] for o in outs]
-        keys = {_key(r) for r in rs}
+        # the verdict is about the RESULT; what an executor pool was handed round by round is
+        # intermediate state: a difference there alone is a broken correspondence, not a violation
+        keys = {_key(_val(r)) for r in rs}
+        if len(keys) == 1 and len({_key(r) for r in rs}) > 1:
+            ctx.count("pool_intermediate_differs:" + case["api"])
+            ctx.corr_broken("the trees handed to / returned by the executor pool differ between completion "
+                            "orders although the final result is the same",
+                            {"api": case["api"], "seed": case["seed"], "opts": case.get("opts")})
         api = case["api"]
         exc = _is_exc(rs[0])
         if exc:
@@ -569,6 +599,18 @@ def compare(ctx, cases, outs, runs, sens=None):
                     {"api": api, "seed": case["seed"], "opts": case.get("opts")})
                 continue
             failing.setdefault(api, []).append(pos)
+    # the state of the process-global generators before / after every seeded call
+    touched = {}
+    for o in outs:
+        for pos in o.get("global_touched", []):
+            api = cases[pos]["api"]
+            ctx.count("global_rng_touched:" + api)
+            touched.setdefault(api, cases[pos])
+    ctx.count("global_rng_untouched_checks", len(cases) * len(outs))
+    for api, case in sorted(touched.items()):
+        ctx.corr_broken("a seeded call advanced the process-global `random` / `numpy.random` generator "
+                        "(Flow.clean_leaves_global_untouched: a clean entry leaves it where it was)",
+                        {"api": api, "seed": case["seed"], "opts": case.get("opts")})
     # the same call repeated on the same object / copies inside one interpreter
     for o in outs:
         for pos_s, labels in (o.get("selfcheck") or {}).items():
@@ -671,7 +713,7 @@ def dynamic_round(ctx, rng, rounds, nruns, big=False, drv=None):
     # seed sensitivity (non-vacuity): the same cases with seed+1 in one more interpreter
     cases2 = [dict(c, seed=c["seed"] + 1) for c in cases]
     o2 = run_workers(cases2, [runs[0]])[0]
-    sens = {pos: _key(o2["results"][str(pos)]) != _key(outs[0]["results"][str(pos)])
+    sens = {pos: _key(_val(o2["results"][str(pos)])) != _key(_val(outs[0]["results"][str(pos)]))
             for pos in range(len(cases))}
     probes = {o.get("probe") for o in outs}
     ctx.notes["distinct_string_hashes_seen"] = max(ctx.notes.get("distinct_string_hashes_seen", 0), len(probes))
@@ -966,4 +1008,4 @@ def replay(ctx, obj):
     pos = obj.get("pos", len(cases) - 1)
     if any((o.get("selfcheck") or {}).get(str(pos)) for o in outs):
         return False
-    return len({_key(o["results"][str(pos)]) for o in outs}) == 1
+    return len({_key(_val(o["results"][str(pos)])) for o in outs}) == 1
